@@ -79,6 +79,8 @@ Mov64I(d, m) == I(183, d, 0, 0, m)       \* 0xb7 mov64 rd, imm
 Add64I(d, m) == I(7, d, 0, 0, m)         \* 0x07 add64 rd, imm
 ExitI        == I(EXIT, 0, 0, 0, 0)
 JaI(off)     == I(JA, 0, 0, off, 0)
+JltI(d, imm, off) == I(165, d, 0, off, imm)       \* 0xa5 jlt rd, imm
+JeqI(d, imm, off) == I(21, d, 0, off, imm)        \* 0x15 jeq rd, imm
 
 VmKinds == <<"raw", "nodata", "mbuff", "fixed">>
 
@@ -513,8 +515,36 @@ GapCase(w, pos) ==
                       !.prog = Flat(LddwSlots(3, a) \o << LdxI(w, 0, 3, 0), ExitI >>)]
 GapCases == { GapCase(w, pos) : w \in Widths, pos \in {4, 8, 10, 11, 12, 13, 14, 17, 23, 24} }
 
+\* two registered ranges that overlap in part, registered in either order: every byte of their union
+\* stays accessible (an access must lie inside ONE of them)
+OverlapCase(order, w, pos) ==
+  LET ob == AllowBaseS(6)
+      bytes == [k \in 1..32 |-> (k * 9 + 2) % 256]
+      lo == [base |-> ob, bytes |-> SubSeq(bytes, 1, 16)]                    \* [0, 16)
+      hi == [base |-> AddN(ob, 8), bytes |-> SubSeq(bytes, 9, 32)]           \* [8, 32)
+  IN [BaseCase EXCEPT !.id = <<"ovl", order, w, pos, 0, 0, 0>>, !.fam = "bounds", !.vm = "nodata",
+                      !.allow = IF order = 1 THEN <<lo, hi>> ELSE <<hi, lo>>,
+                      !.prog = Flat(LddwSlots(3, AddN(ob, pos)) \o << LdxI(w, 0, 3, 0), ExitI >>)]
+OverlapCases == { OverlapCase(o, w, pos) : o \in {1, 2}, w \in Widths, pos \in {0, 7, 8, 12, 15, 16, 20, 24, 31, 32} }
+
+\* an atomic add whose ADDEND is r10 (the value is an address, outside the claim; whether the access
+\* is performed is not), at a base outside every region, with displacements that would be fine for r10
+XaddR10Case(w, off) ==
+  LET c == LayoutCase(1) IN
+  [c EXCEPT !.id = <<"xr10", w, off, 0, 0, 0, 0>>, !.fam = "bounds",
+            !.prog = Flat(LddwSlots(3, AddN(c.pkt.base, BPktLen + 40 - off)) \o << Mov64I(0, 0), XaddI(w, 3, 10, off), ExitI >>)]
+XaddR10Cases == { XaddR10Case(w, off) : w \in {4, 8}, off \in {-8, -16, -512} }
+
+\* ldind whose 32-bit displacement has its sign bit set and whose index register has an all-ones
+\* upper half: displacement zero-extended, the sum wraps modulo 2^64 back into the packet
+LdIndWrapCase(w, k) ==
+  LET c == LayoutCase(1) IN
+  [c EXCEPT !.id = <<"ldw", w, k, 0, 0, 0, 0>>, !.fam = "bounds",
+            !.prog = Flat(LddwSlots(3, W64(4 + k, 0, 0, 0, 255, 255, 255, 255)) \o << LdIndI(w, 3, -4) >> \o << ExitI >>)]
+LdIndWrapCases == { LdIndWrapCase(w, k) : w \in Widths, k \in {0, 2, 8} }
+
 BoundsCases(u) ==
-  NestedCases \cup GapCases \cup
+  NestedCases \cup GapCases \cup OverlapCases \cup XaddR10Cases \cup LdIndWrapCases \cup
   { PairCaseOf(t) : t \in PairIdx(u) } \cup
   { PairDirect(t[1], t[2], t[3], t[4], t[5]) : t \in PairDirectIdx(u) } \cup
   { DirectCaseOf(t[1], t[2], t[3], t[4]) : t \in DirectIdx(u) } \cup
@@ -677,7 +707,25 @@ EntryCase(k) ==
                            CallxI(-4), ExitI,                                         \* dead code: callx f
                            Mov64R(0, 1), Sub64R(0, 10), ExitI >>)]
 
+\* main is the only function and calls itself (the only call target is pc 0): level 2 reports its
+\* distance below level 1 - the frame size of the function at pc 0
+SelfRecCase(sz) ==
+  [BaseCase EXCEPT !.id = <<"selfrec", sz, 0, 0, 0, 0, 0>>, !.fam = "calls", !.vm = "nodata", !.calc = TRUE,
+     !.fsz = [dflt |-> 256, tab |-> << <<0, sz>> >>],
+     !.prog = Flat(<< Mov64R(8, 7), Mov64R(7, 10), Add64I(6, 1), JeqI(6, 2, 2), CallxI(-5), ExitI,
+                      Mov64R(0, 8), Sub64R(0, 10), ExitI >>)]
+\* the call tree with main calling the later-placed function first
+TreeProg2 ==
+  Flat(<< Mov64R(1, 10), CallxI(9), Mov64R(6, 0), Mov64R(1, 10), CallxI(3), Lsh64I(0, 12), Add64R(0, 6), ExitI,    \* main 0..7: f2 (11) then f1 (8)
+          Mov64R(0, 1), Sub64R(0, 10), ExitI,                                                                        \* f1   8..10
+          Mov64R(7, 1), Sub64R(7, 10), Mov64R(1, 10), CallxI(-7), Mov64R(8, 0), Mov64R(1, 10), CallxI(-10),         \* f2   11..22
+          Lsh64I(0, 12), Add64R(0, 8), Lsh64I(0, 12), Add64R(0, 7), ExitI >>)
+TreeCase2(ti) ==
+  [BaseCase EXCEPT !.id = <<"tree2", ti, 0, 0, 0, 0, 0>>, !.fam = "calls", !.vm = "nodata", !.prog = TreeProg2, !.calc = TRUE,
+                   !.fsz = [dflt |-> 48, tab |-> << <<0, TreeSizes[ti][1]>>, <<8, TreeSizes[ti][2]>>, <<11, TreeSizes[ti][3]>> >>]]
+
 CallsCases(u) ==
+  WithJitDev({ SelfRecCase(sz) : sz \in {16, 64} } \cup { TreeCase2(ti) : ti \in 1..Len(TreeSizes) }) \cup
   { LocalVsHelper(k) : k \in {1, 2, 6} } \cup { SavedCase(k) : k \in 1..4 } \cup WithJitDev({ EntryCase(k) : k \in {1, 2} }) \cup
   WithJitDev( { HelperNotAnEntry } \cup { TreeCase(ti) : ti \in 0..Len(TreeSizes) } \cup { ChainCase(t[1], t[2], t[3]) : t \in {x \in (0..9) \X {0, 1} \X (1..7) : Keep(x[1] + 3*x[2] + 5*x[3])} }
               \cup { RecCase(N, ci) : N \in 0..9, ci \in {1, 2, 3} } )
@@ -689,8 +737,6 @@ CallsCases(u) ==
 (* exit in the middle, nested diamonds - and unused fields that must be     *)
 (* ignored: a dst field on call / ldabs / ldind, an offset on exit.         *)
 (***************************************************************************)
-JltI(d, imm, off) == I(165, d, 0, off, imm)       \* 0xa5 jlt rd, imm
-JeqI(d, imm, off) == I(21, d, 0, off, imm)        \* 0x15 jeq rd, imm
 CfgProgs == <<
   \* 1: loop through instruction 0:  add r1,1 ; jlt r1,3,-2 ; mov r0,r1 ; exit         => 3
   << Add64I(1, 1), JltI(1, 3, -2), Mov64R(0, 1), ExitI >>,
